@@ -121,9 +121,11 @@ def elem(t, idxvar=None):
 
 
 class Scan:
-    def __init__(self, fn_label, role):
+    def __init__(self, fn_label, role, module_funcs=None):
         self.fn = fn_label
         self.role = role
+        self.module_funcs = module_funcs or {}     # module-level functions of the same file (followed when the input is passed)
+        self.followed = set()
         self.writes = []           # dicts kind/what/line
         self.rets = set()
         self.first = {}            # name -> (line, tags) of first binding (source order)
@@ -468,6 +470,14 @@ class Scan:
             if name in INPLACE_FUNCS and args and is_obj(args[0]):
                 self.write("destructive", src, n)
                 return args[0]
+            if name in self.module_funcs and name not in env and (arg_obj or arg_list or arg_part):
+                # a module-level helper of the same file that receives the input: its body is analysed with the same
+                # rules (parameters bound to the argument tags, no closure), fail-closed on anything unknown
+                if name in self.stack:
+                    self.write("escape", "input passed to a recursive helper: " + src, n)
+                    return fs("derived")
+                self.followed.add(name)
+                return self.inline(name, n, args, env, module=True)
             if name in PURE_FUNCS or name[:1].isupper():
                 return EMPTY
             if arg_obj or arg_list or arg_part:
@@ -481,12 +491,14 @@ class Scan:
             self.write("escape", "input passed to computed callee: " + src, n)
         return EMPTY
 
-    def inline(self, name, call, args, env):
-        node = self.funcs[name]
+    def inline(self, name, call, args, env, module=False):
+        node = self.module_funcs[name] if module else self.funcs[name]
         if name in self.stack:
             return fs("derived")
         self.stack.append(name)
-        env2 = dict(env)
+        if module and (node.args.vararg or node.args.kwarg or node.args.kwonlyargs):
+            raise TranslateError("%s: helper %s has *args / **kwargs" % (self.fn, name))
+        env2 = {} if module else dict(env)
         params = [a.arg for a in node.args.args]
         for i, p in enumerate(params):
             env2[p] = args[i] if i < len(args) else EMPTY
@@ -751,8 +763,12 @@ def find_func(body, name):
     raise TranslateError("function %s not found" % name)
 
 
-def scan_function(label, node, role, inputs, list_inputs=()):
-    sc = Scan(label, role)
+def module_functions(tree):
+    return {n.name: n for n in tree.body if isinstance(n, ast.FunctionDef)}
+
+
+def scan_function(label, node, role, inputs, list_inputs=(), module_funcs=None):
+    sc = Scan(label, role, module_funcs)
     env = {}
     for a in node.args.args:
         env[a.arg] = EMPTY
@@ -791,7 +807,8 @@ def scan_function(label, node, role, inputs, list_inputs=()):
     norm = lambda t: sorted({("in" if x.startswith("in0:") or x in ("inlist", "inlist0") else x) for x in t
                              if x in ORIGIN_COQ or x.startswith("in0:") or x in ("inlist", "inlist0")})
     return {"fn": label, "role": role, "first": norm(first), "first_src": first_src, "ret": norm(ret),
-            "writes": sc.writes, "entry_names": sorted(sc.entry_names), "xrefs": sorted(sc.xrefs)}
+            "writes": sc.writes, "entry_names": sorted(sc.entry_names), "xrefs": sorted(sc.xrefs),
+            "followed": sorted(sc.followed)}
 
 
 CSUM_TEMPLATE = '''
@@ -846,7 +863,7 @@ def scan_lib(repo):
         srow = scan_function("_sum", sm, "Public", [], ["mps_list"])
     else:
         srow = {"fn": "_sum", "role": "SumHelper", "first": ["derived"], "first_src": ["new_mps = reduce(add, mps_list)"],
-                "ret": ["derived"], "writes": [], "entry_names": [], "xrefs": []}
+                "ret": ["derived"], "writes": [], "entry_names": [], "xrefs": [], "followed": []}
     return row, srow, default_batch
 
 
@@ -891,11 +908,12 @@ def extract(repo):
     p = os.path.join(repo, "renormalizer/mps/mps.py")
     tree = ast.parse(open(p).read())
     mps_cls = find_class(tree, "Mps")
+    mf = module_functions(tree)
     names = [n.name for n in mps_cls.body if isinstance(n, ast.FunctionDef) and n.name.startswith("_evolve_")]
     if not names:
         raise TranslateError("no _evolve_* methods found")
     for nm in names + ["evolve_exact", "evolve"]:
-        r = scan_function("Mps." + nm, find_func(mps_cls.body, nm), "Public", ["self"])
+        r = scan_function("Mps." + nm, find_func(mps_cls.body, nm), "Public", ["self"], module_funcs=mf)
         r["file"] = "mps/mps.py"
         rows.append(r)
     disp = rows[-1]
@@ -905,7 +923,7 @@ def extract(repo):
     # adaptive wrapper
     ad = find_func(tree.body, "adaptive_tdvp")
     inner = find_func(ad.body, "adaptive_fun")
-    r = scan_function("adaptive_tdvp.adaptive_fun", inner, "Public", ["self"])
+    r = scan_function("adaptive_tdvp.adaptive_fun", inner, "Public", ["self"], module_funcs=mf)
     r["file"] = "mps/mps.py"
     rows.append(r)
     decorated = []
@@ -921,7 +939,7 @@ def extract(repo):
     cls = find_class(tree, "MpDm")
     for n in cls.body:
         if isinstance(n, ast.FunctionDef) and (n.name.startswith("_evolve_") or n.name in ("evolve_exact", "evolve")):
-            r = scan_function("MpDm." + n.name, n, "Public", ["self"])
+            r = scan_function("MpDm." + n.name, n, "Public", ["self"], module_funcs=module_functions(tree))
             r["file"] = "mps/mpdm.py"
             rows.append(r)
     if not any(r["fn"] == "MpDm.evolve_exact" for r in rows):
@@ -930,7 +948,7 @@ def extract(repo):
     p = os.path.join(repo, "renormalizer/tn/tree.py")
     tree = ast.parse(open(p).read())
     cls = find_class(tree, "TTNS")
-    r = scan_function("TTNS.evolve", find_func(cls.body, "evolve"), "Public", ["self"])
+    r = scan_function("TTNS.evolve", find_func(cls.body, "evolve"), "Public", ["self"], module_funcs=module_functions(tree))
     r["file"] = "tn/tree.py"
     rows.append(r)
     p = os.path.join(repo, "renormalizer/tn/time_evolution.py")
@@ -980,7 +998,9 @@ def render(tab):
     for i, r in enumerate(tab["rows"]):
         nm = "ent_%d" % i
         names.append(nm)
-        o.append("(* %s :: %s   first binding of the returned state: %s *)" % (r["file"], r["fn"], "; ".join(r["first_src"]) or "-"))
+        o.append("(* %s :: %s   first binding of the returned state: %s%s *)" % (
+            r["file"], r["fn"], "; ".join(r["first_src"]) or "-",
+            ("   [module-level helpers followed: %s]" % ", ".join(r["followed"])) if r.get("followed") else ""))
         o.append("Definition %s : entry := mkE %s %s %s" % (nm, cs(r["file"]), cs(r["fn"]), r["role"]))
         o.append("  [" + "; ".join(ORIGIN_COQ[x] for x in r["first"]) + "]")
         o.append("  [" + "; ".join(ORIGIN_COQ[x] for x in r["ret"]) + "]")
